@@ -45,7 +45,7 @@ for wtname in ids:
             },
             "exploration_runs": res.get("checks", {}),
         }
-        for k in ("recorded_run", "history", "checks_to_run", "note"):
+        for k in ("recorded_run", "history", "checks_to_run", "note", "expected_detection"):
             if k in old:
                 out[k] = old[k]
         json.dump(out, open(os.path.join(dst, "meta.json"), "w"), indent=1)
